@@ -69,21 +69,21 @@ def check_events(M, C, sizes, tails, candidates, base_case, pfx="anyL", domain=N
         sol0 = z3.Solver()
         sol0.add(z3.And(wprem))
         if sol0.check() == z3.unsat:
-            M._rec(name + "/writes-nothing-the-specification-speaks-about", "discharged", "z3-lia", 0.0, detail="empty for all extents", vacuous=True)
+            M._rec(name + "/writes-nothing-the-specification-speaks-about", "discharged", "z3-lia", G.LAST_SECS[0], detail="empty for all extents", vacuous=True)
             continue
         for e, D in w["bounds"]:
             st, mdl = G.check_valid(prem + [G._cons_z3(w["cons"], env)], z3.And(e.z3(env) >= 0, e.z3(env) < D.z3(env)))
-            M._rec(name + "/index-in-range[%r]" % e, st, "z3-lia", 0.0, detail=mdl or "", cex=_cex(mdl))
+            M._rec(name + "/index-in-range[%r]" % e, st, "z3-lia", G.LAST_SECS[0], detail=mdl or "", cex=_cex(mdl))
         for la, ra in w.get("lens", []):
             pv = z3.Int("q")
             inl = z3.And([la.lo.z3(env) + pv < ub.z3(env) for ub in la.ubs])
             inr = z3.And([ra.lo.z3(env) + pv < ub.z3(env) for ub in ra.ubs])
             st, mdl = G.check_valid(prem + [G._cons_z3(G.loop_cons(w["loops"]), env), pv >= 0], inl == inr)
-            M._rec(name + "/aligned-slices-equal-length", st, "z3-lia", 0.0, detail=mdl or "", cex=_cex(mdl))
+            M._rec(name + "/aligned-slices-equal-length", st, "z3-lia", G.LAST_SECS[0], detail=mdl or "", cex=_cex(mdl))
         for ax in w.get("len1", []):
             one = z3.And([ax.lo.z3(env) < ub.z3(env) for ub in ax.ubs] + [z3.Not(z3.And([ax.lo.z3(env) + 1 < ub.z3(env) for ub in ax.ubs]))])
             st, mdl = G.check_valid(prem + [G._cons_z3(G.loop_cons(w["loops"]), env)], one)
-            M._rec(name + "/broadcast-axis-has-exactly-one-element", st, "z3-lia", 0.0, detail=mdl or "", cex=_cex(mdl))
+            M._rec(name + "/broadcast-axis-has-exactly-one-element", st, "z3-lia", G.LAST_SECS[0], detail=mdl or "", cex=_cex(mdl))
         # generic positions / loop variables that the constraints pin to one value (a slice such as 1:2 has at most one
         # element): substitute them, in the index and in the value
         forced = {}
@@ -125,7 +125,7 @@ def check_events(M, C, sizes, tails, candidates, base_case, pfx="anyL", domain=N
             if matched and tail == tails[0]:
                 for e in matched[1]:
                     st, mdl = G.check_valid(wprem, e.z3(env) >= 0)
-                    M._rec(name + "/relation-applied-inside-the-table[%r>=0]" % e, st, "z3-lia", 0.0, detail=mdl or "", cex=_cex(mdl))
+                    M._rec(name + "/relation-applied-inside-the-table[%r>=0]" % e, st, "z3-lia", G.LAST_SECS[0], detail=mdl or "", cex=_cex(mdl))
 
     def written_before(r, rprem, label):
         target = [e.z3(env) for e in r["idx"]]
@@ -141,7 +141,7 @@ def check_events(M, C, sizes, tails, candidates, base_case, pfx="anyL", domain=N
             elif r["seq"] is None or w["seq"] < r["seq"]:
                 alts.append(G.region_formula(w, target, env, sizes))
         st, mdl = G.check_valid(rprem, z3.And(z3.Or(alts) if alts else z3.BoolVal(False), rdom(env, *target)), timeout_ms=60000)
-        M._rec(label, st, "z3-lia", 0.0, detail=mdl or "", cex=_cex(mdl))
+        M._rec(label, st, "z3-lia", G.LAST_SECS[0], detail=mdl or "", cex=_cex(mdl))
 
     # every element read (for a target the specification speaks about) was written earlier and lies in the domain
     for n, r in enumerate(reads):
@@ -150,7 +150,7 @@ def check_events(M, C, sizes, tails, candidates, base_case, pfx="anyL", domain=N
         written_before(r, rprem, "%s/read%02d[%s]@stmt-seq%d/written-before" % (pfx, n, ",".join(repr(e) for e in r["idx"]), r["seq"]))
         for e, D in r["bounds"]:
             st, mdl = G.check_valid(prem + [G._cons_z3(r["wcons"], env)], z3.And(e.z3(env) >= 0, e.z3(env) < D.z3(env)))
-            M._rec("%s/read%02d/index-in-range[%r]" % (pfx, n, e), st, "z3-lia", 0.0, detail=mdl or "", cex=_cex(mdl))
+            M._rec("%s/read%02d/index-in-range[%r]" % (pfx, n, e), st, "z3-lia", G.LAST_SECS[0], detail=mdl or "", cex=_cex(mdl))
 
     # what is handed back to the caller has been written and lies in the domain
     if returned is not None:
@@ -162,7 +162,7 @@ def check_events(M, C, sizes, tails, candidates, base_case, pfx="anyL", domain=N
         kk, jj, ii = z3.Int("ck"), z3.Int("cj"), z3.Int("ci")
         box = full_box(env, kk, jj, ii)
         st, mdl = G.check_valid(prem + box, z3.Or([G.region_formula(w, [kk, jj, ii], env, sizes) for w in writes]), timeout_ms=60000)
-        M._rec(pfx + "/coverage/every-element-written", st, "z3-lia", 0.0, detail=mdl or "", cex=_cex(mdl))
+        M._rec(pfx + "/coverage/every-element-written", st, "z3-lia", G.LAST_SECS[0], detail=mdl or "", cex=_cex(mdl))
 
 
 class MomentRecursionAnyL:
@@ -397,7 +397,7 @@ class DiffRecursionAnyL:
         p6, p5, p4 = z3.Int("p6"), z3.Int("p5"), z3.Int("p4")
         st, mdl = G.check_valid(_sizes_premise(env0, sizes) + [env0("nd") >= 1, p6 >= 0, p5 >= 0, p4 >= 0],
                                 G._cons_z3(ret["cons"], env0) == z3.And(p6 <= env0("nd"), p5 <= env0("nb"), p4 <= env0("na")))
-        M._rec(pfx + "/returned-view/extent-is-(nd+1,nb+1,na+1)", st, "z3-lia", 0.0, detail=mdl or "", cex=_cex(mdl))
+        M._rec(pfx + "/returned-view/extent-is-(nd+1,nb+1,na+1)", st, "z3-lia", G.LAST_SECS[0], detail=mdl or "", cex=_cex(mdl))
         check_events(M, C, sizes, tails, candidates, base_case, pfx=pfx, domain=domain, returned=[ret], extra_prem=lambda env: [env("nd") >= 1])
 
 
@@ -508,7 +508,7 @@ class OneElecVerticalAnyL:
             return
         envb, _ = G._z3env()
         st, mdl = G.check_valid(_sizes_premise(envb, sizes), bo[0].D.z3(envb) >= (la + lb + 1).z3(envb))
-        M._rec(pfx + "/pre@boys/orders-0..la+lb-are-requested", st, "z3-lia", 0.0, detail=mdl or "orders 0 .. %r - 1" % bo[0].D, cex=_cex(mdl))
+        M._rec(pfx + "/pre@boys/orders-0..la+lb-are-requested", st, "z3-lia", G.LAST_SECS[0], detail=mdl or "orders 0 .. %r - 1" % bo[0].D, cex=_cex(mdl))
         Tarr = np.asarray(bo[1], dtype=object)
         M.true(pfx + "/pre@boys/argument-shape", Tarr.shape[-4:] == (1, N, Kb, Ka) and Tarr.size == N * Kb * Ka, str(Tarr.shape))
         Tarr = Tarr.reshape((1, N, Kb, Ka)) if Tarr.size == N * Kb * Ka else Tarr
@@ -686,7 +686,7 @@ class TwoElecRecursionsAnyL:
         if bo is None:
             return
         st, mdl = G.check_valid(_sizes_premise(envb, sizes), bo[0].D.z3(envb) >= (L + 1).z3(envb))
-        M._rec(pfx + "/pre@boys/orders-0..L-are-requested", st, "z3-lia", 0.0, detail=mdl or "orders 0 .. %r - 1" % bo[0].D, cex=_cex(mdl))
+        M._rec(pfx + "/pre@boys/orders-0..L-are-requested", st, "z3-lia", G.LAST_SECS[0], detail=mdl or "orders 0 .. %r - 1" % bo[0].D, cex=_cex(mdl))
         Tarr = np.asarray(bo[1], dtype=object)
         okT = Tarr.shape == (1, Kd, Kb, Kc, Ka)
         M.true(pfx + "/pre@boys/argument-shape", okT, str(Tarr.shape))
